@@ -186,6 +186,14 @@ MUTANTS["m53_nfa_any_written_to_eoi_field"] = (["C02"], [("crates/lexgen/src/nfa
 MUTANTS["m54_concat_operands_swapped"] = (["C02"], [(R2N, """            add_re(nfa, bindings, re1, current, re1_cont);
             add_re(nfa, bindings, re2, re1_cont, cont);""", """            add_re(nfa, bindings, re2, current, re1_cont);
             add_re(nfa, bindings, re1, re1_cont, cont);""")], "concatenation in reverse order")
+MUTANTS["m55_eoi_closure_not_queued"] = (["C05", "C02"], [(N2D, """                dfa.set_end_of_input_transition(current_dfa_state, dfa_state);
+                work_list.push(closure);""", """                dfa.set_end_of_input_transition(current_dfa_state, dfa_state);""")],
+    "the state reached on end of input is never processed (no accepting value)")
+MUTANTS["m56_char_target_keyed_by_unclosed_set"] = (["C02"], [(N2D, """            let dfa_state = dfa_state_of_nfa_states(&mut dfa, &mut state_map, closure.clone());
+            dfa.add_char_transition(current_dfa_state, char, dfa_state);""", """            let dfa_state =
+                dfa_state_of_nfa_states(&mut dfa, &mut state_map, char_states.iter().copied().collect());
+            dfa.add_char_transition(current_dfa_state, char, dfa_state);""")],
+    "the target of a character transition is registered under the unclosed set while the closure is queued")
 REVERTS = {
     "r01_revert_F1": ("1a68785", ["C01", "C12"]),
     "r02_revert_F2": ("551ccb8", ["C04", "C12"]),
@@ -334,6 +342,21 @@ BENIGN = {
             nfa.add_empty_transition(re1_init, re2_init);
             nfa.add_empty_transition(re2_init, current);""")],
         "alternation with an empty-transition cycle current -> re1_init -> re2_init -> current: breaks the closed-fragment discipline but not the language in any context (the cycle's states are all reachable from `current` without input anyway); R-THOMPSON must fall back to composing the templates and stay silent"),
+    "b20_eoi_closure_queued_only_when_new": ([(N2D, """                let dfa_state = dfa_state_of_nfa_states(&mut dfa, &mut state_map, closure.clone());
+                dfa.set_end_of_input_transition(current_dfa_state, dfa_state);
+                work_list.push(closure);""", """                let is_new = !state_map.contains_key(&closure);
+                let dfa_state = dfa_state_of_nfa_states(&mut dfa, &mut state_map, closure.clone());
+                dfa.set_end_of_input_transition(current_dfa_state, dfa_state);
+                if is_new {
+                    work_list.push(closure);
+                }""")], "a target set is queued only when it was not registered before (it was queued when it was registered)"),
+    "b21_state_map_none_arm_unreachable": ([(N2D, """            None => {
+                let dfa_state = dfa.new_state();
+                state_map.insert(current_nfa_states.clone(), dfa_state);
+                dfa_state
+            }
+            Some(dfa_state) => *dfa_state,""", """            None => unreachable!("every queued set is registered"),
+            Some(dfa_state) => *dfa_state,""")], "the dead `None` arm of the state-map lookup made explicit"),
     "b08_eoi_action_block": ([(CG, "        self.0.__done = true; // don't handle end-of-input again\n        #end_of_input_action", "        self.0.__done = true;\n        { #end_of_input_action }")], "extra block around the end-of-input action"),
     "b09_generator_match_style": ([(GEN, """        } else if let Some(range) = current_range.take() {
             ranges.push(range);
